@@ -3,6 +3,7 @@ package main
 import (
 	"fmt"
 	"go/token"
+	"go/types"
 
 	"golang.org/x/tools/go/ssa"
 )
@@ -102,6 +103,67 @@ func globalTableConsts(p *Prog, g *ssa.Global) ([]int64, bool) {
 	return tableConsts(p, init)
 }
 
+func globalArrayConsts(p *Prog, g *ssa.Global) ([]int64, bool) {
+	if p == nil || g.Pkg == nil {
+		return nil, false
+	}
+	els := map[int64]int64{}
+	ok := true
+	for _, f := range p.RepoFuncs {
+		allInstrs(f, func(i ssa.Instruction) {
+			switch x := i.(type) {
+			case *ssa.Store:
+				if x.Addr == ssa.Value(g) {
+					ok = false // the whole array is replaced somewhere
+				}
+			case *ssa.IndexAddr:
+				if x.X != ssa.Value(g) || x.Referrers() == nil {
+					return
+				}
+				for _, r := range *x.Referrers() {
+					st, isSt := r.(*ssa.Store)
+					if !isSt {
+						continue
+					}
+					k, isK := intConst(x.Index)
+					v, isV := intConst(st.Val)
+					if !isK || !isV || st.Addr != ssa.Value(x) || f.Name() != "init" || f.Pkg != g.Pkg {
+						ok = false
+						continue
+					}
+					if _, dup := els[k]; dup {
+						ok = false
+					}
+					els[k] = v
+				}
+			case *ssa.Slice:
+				// arr[:] handed on: someone may write through it
+				if x.X == ssa.Value(g) && sliceWrittenThrough(x) {
+					ok = false
+				}
+			}
+		})
+	}
+	if !ok || len(els) == 0 {
+		return nil, false
+	}
+	var out []int64
+	for k := int64(0); k < int64(len(els)); k++ {
+		v, have := els[k]
+		if !have {
+			return nil, false
+		}
+		out = append(out, v)
+	}
+	// elements the literal leaves out are zero: the array type's length says how many there are
+	if pt, isP := g.Type().Underlying().(*types.Pointer); isP {
+		if at, isA := pt.Elem().Underlying().(*types.Array); isA && at.Len() != int64(len(out)) {
+			return nil, false
+		}
+	}
+	return out, true
+}
+
 // tableConsts: the elements of a slice or array literal all of whose entries are integer constants and that is written
 // nowhere else.
 func tableConsts(p *Prog, t ssa.Value) ([]int64, bool) {
@@ -113,6 +175,10 @@ func tableConsts(p *Prog, t ssa.Value) ([]int64, bool) {
 		if g, isG := ld.X.(*ssa.Global); isG {
 			return globalTableConsts(p, g)
 		}
+	}
+	// a package-level array: its elements are stored one by one by the package initialiser and nowhere else
+	if g, isG := t.(*ssa.Global); isG {
+		return globalArrayConsts(p, g)
 	}
 	a, ok := t.(*ssa.Alloc)
 	if !ok || a.Referrers() == nil {
